@@ -277,3 +277,13 @@ pub fn miri_tripwire(ctx: &crate::report::Ctx, st: &mut crate::report::Stats, op
         st.bump("miri_run_failed(not judged)");
     }
 }
+
+/// Content for an output file that "already exists": long, and not a formula / graph / DOT text.
+/// A tool that writes its output into an existing file must replace the old content completely.
+pub fn stale_content() -> Vec<u8> {
+    let mut v = Vec::new();
+    for i in 0..20_000 {
+        v.extend_from_slice(format!("\"stale line {}\" ((( [ stale , {} ] = ) ) -> n_stale;\n", i, i).as_bytes());
+    }
+    v
+}
